@@ -94,7 +94,7 @@ CHECKS = {
               "extension, feeds them to the real DataView::using (catch_unwind), posts damaged frames to a real server counting handler runs, and "
               "round-trips values and handler errors through the real client; Trace_RpcFrame.tla validates every event against the rule."),
         design_ref="DESIGN.md section 7 C12",
-        note="Per-frame exhaustive up to 2 KiB (4 KiB thorough), sampled above; value space sampled; message types include archives of alignment 1 and 2 with sizes that are not a multiple of four. Memory safety itself is not observed (section 11)."),
+        note="Per-frame exhaustive up to 2 KiB (4 KiB thorough), sampled above; value space sampled; message types include archives of alignment 1 and 2 with sizes that are not a multiple of four, and messages carrying one collection of 6 .. 20 000 owning elements (the serializer's working memory grows with the element count); bursts of several hundred requests in flight at once on one connection and on connections of their own (each caller gets the reply to its own request). Memory safety itself is not observed (section 11)."),
     "C13": dict(
         engine="tlc + h-rpc",
         technique="TLC exhaustive enumeration of add/remove histories on RpcRegistry.tla + replay of every history on a real Server with real clients",
